@@ -7,13 +7,13 @@ CONSTANTS
   Tick = 8
   Sec = 2
   ImportSplit = 2
-  PopUnit = "byte"
-  StartUnit = "byte"
-  Mode = "hosts"
-  MaxStreams = 4
-  MaxPkts = 0
-  Sizes = {}
-  Steps = {}
+  PopUnit = "host"
+  StartUnit = "host"
+  Mode = "pkts"
+  MaxStreams = 1
+  MaxPkts = 4
+  Sizes = {99, 1, 3}
+  Steps = {0, 8, 24}
   EmitK = 3
-  Exempt = TRUE
+  Exempt = FALSE
 INVARIANTS Check
